@@ -1417,11 +1417,17 @@ static int _parse_single_range(const char *str, struct _range *range)
     if (range->lo > range->hi)
         goto error;
 
-    if (range->hi - range->lo + 1 > MAX_RANGE ) {
+    /* lo <= hi here, so the difference cannot wrap around */
+    if (range->hi - range->lo >= MAX_RANGE ) {
         _error(__FILE__, __LINE__, "Too many hosts in range `%s'", orig);
         free(orig);
         seterrno_ret(ERANGE, 0);
     }
+
+    /* ULONG_MAX is what strtoul() returns for a number that is too large,
+     * and it is reserved as the "empty" marker (see hostrange_empty) */
+    if (range->hi == (unsigned long) -1)
+        goto error;
 
     free(orig);
     range->width = strlen(str);
